@@ -385,7 +385,7 @@ def _tuple_parts(ty):
     return parts
 
 
-def gen_async_trait(root, notes, sync_info, sync_methods):
+def gen_async_trait(root, notes, sync_info, sync_methods, tag=None, server=True):
     """Model of `trait AsyncFileSystem: FileSystem`, generated from the real trait text on every run.
 
     C20 says the async path invokes "the same filesystem operation with the same arguments": every method `async_<op>`
@@ -406,7 +406,11 @@ def gen_async_trait(root, notes, sync_info, sync_methods):
         components are all `Option<_>`: the async result (a, b) then stands for the sync result (a, b, None) - the async
         API cannot express the missing component (today: the passthrough backing id of open / create), so the only sync
         results that have an async counterpart are those with `None` there.  Logged in `notes`.
-    An async method without a sync namesake, or a method of the trait that is not `async fn async_*`, is an ExtractError."""
+    An async method without a sync namesake, or a method of the trait that is not `async fn async_*`, is an ExtractError.
+    tag (optional, e.g. 'C20.arc.%s.forward'): the capability clause and every ensures clause of method async_<op> are put on lines of
+    their own carrying `[tag % op]` (used by unit asyncarcfs, where these clauses ARE the property); default output unchanged.
+    server=False: the clauses gen_trait only emits with server=True (err_ok of errors, res_read_data) are left out, to match a
+    FileSystem model generated with server=False (unit asyncvfs)."""
     ms = parse_methods_in(root, AFILE, ATRAIT)
     sync_by_name = {m['name']: m for m in sync_methods}
     L = ['// ---- model of trait AsyncFileSystem, generated from %s (%d methods); shares allowed_*/res_* with trait FileSystem' % (AFILE, len(ms)),
@@ -443,7 +447,8 @@ def gen_async_trait(root, notes, sync_info, sync_methods):
             sexprs.append(se)
         ret, sret = m['ret'], sm['ret']
         rf = sync_info[op]['resfn']
-        req = ['self.touch_ok(), // [touch]', 'self.allowed_%s(%s), // [cap]' % (op, ', '.join(sexprs))]
+        tg = (' [%s]' % (tag % op)) if tag else ''
+        req = ['self.touch_ok(), // [touch]', 'self.allowed_%s(%s), // [cap]%s' % (op, ', '.join(sexprs), tg)]
         for (n, t) in m['params']:
             if t == 'stat64':
                 req.append('self.ids_ok(%s.st_uid, %s.st_gid), // [ids]' % (n, n))
@@ -461,15 +466,32 @@ def gen_async_trait(root, notes, sync_info, sync_methods):
                          % (an, ret, op, sret, ', '.join(sp[len(ap):])))
         elif ret:
             ens.append('res == self.%s()' % rf)
-        if ret and ret.startswith('io::Result'):
+        if server and ret and ret.startswith('io::Result'):
             ens.append('res is Err ==> err_ok(res->Err_0)')       # T8, as for the sync method
         if op == 'read':
             ens.append('zw_appended(*old(w), *final(w), res)')
-            ens.append('res is Ok ==> final(w).zw_buf() == old(w).zw_buf() + self.res_read_data() && res->Ok_0 == self.res_read_data().len()')
+            if server:
+                ens.append('res is Ok ==> final(w).zw_buf() == old(w).zw_buf() + self.res_read_data() && res->Ok_0 == self.res_read_data().len()')
         g = ('<%s>' % ', '.join(gens)) if gens else ''
         L.append('    fn %s%s(&self%s)%s' % (an, g, ''.join(', ' + p for p in eparams), (' -> (res: %s)' % ret) if ret else ''))
         L.append('        requires ' + '\n            '.join(req))
-        L.append('        ensures ' + ', '.join(ens) + ';' if ens else '        ;')
-        ainfo[an] = dict(op=op, ret=ret, sync_ret=sret, resfn=rf, line=m['line'])
+        if tag and ens:
+            L.append('        ensures ' + '\n            '.join('%s%s //%s' % (e, ',' if i + 1 < len(ens) else '', tg) for i, e in enumerate(ens)) + '\n        ;')
+        else:
+            L.append('        ensures ' + ', '.join(ens) + ';' if ens else '        ;')
+        ainfo[an] = dict(op=op, ret=ret, sync_ret=sret, resfn=rf, line=m['line'], eparams=eparams, gens=gens)
     L.append('}')
     return '\n'.join(L), ainfo
+
+
+def gen_async_impl(ainfo, struct, inode_ty, handle_ty):
+    """an opaque implementor of the generated AsyncFileSystem model (a backend): every method external_body; its contract is the
+    trait's, i.e. it shares allowed_*/res_* with the struct's `impl FileSystem` (fsmodel.gen_impl)"""
+    L = ['impl AsyncFileSystem for %s {' % struct]
+    for an, d in ainfo.items():
+        g = ('<%s>' % ', '.join(d['gens'])) if d['gens'] else ''
+        ps = ''.join(', ' + p.replace('Self::Inode', inode_ty).replace('Self::Handle', handle_ty) for p in d['eparams'])
+        ret = (' -> (res: %s)' % d['ret'].replace('Self::Inode', inode_ty).replace('Self::Handle', handle_ty)) if d['ret'] else ''
+        L.append('    #[verifier::external_body] fn %s%s(&self%s)%s { unimplemented!() }' % (an, g, ps, ret))
+    L.append('}')
+    return '\n'.join(L)
